@@ -187,6 +187,30 @@ def main():
                 neg(lambda: onp.all(make_vjp(fun, -1)(p, a, q, b, scale=s)[0](1.0) == gb)),
                 neg(lambda: onp.all(make_jvp(fun, -3)(p, a, q, b, scale=s)(onp.ones_like(a))[1] == onp.sum(ga))),
             ]
+            # one operator OBJECT applied at several points / extra arguments: whatever an earlier application returned
+            # keeps belonging to ITS arguments, also when it is evaluated after the later applications
+            op_j, op_v = make_jvp(fun, 1), make_vjp(fun, 3)
+            push1 = op_j(p, a, q, b, scale=s, extra=5.0)
+            pull1 = op_v(p, a, q, b, scale=s)[0]
+            push2 = op_j(p + 1.0, a + 1.0, q, b - 1.0, scale=s + 1.0)
+            pull2 = op_v(p + 2.0, a - 1.0, q + 1.0, b, scale=2.0 * s)[0]
+            ga2 = grad(lambda z: fun(p + 1.0, z, q, b - 1.0, scale=s + 1.0))(a + 1.0)
+            gb2 = grad(lambda z: fun(p + 2.0, a - 1.0, q + 1.0, z, scale=2.0 * s))(b)
+            v1, t1 = push1(onp.ones_like(a))
+            v2, t2 = push2(onp.ones_like(a))
+            checks += [t1 == onp.sum(ga), v1 == fun(p, a, q, b, scale=s, extra=5.0), t2 == onp.sum(ga2),
+                       v2 == fun(p + 1.0, a + 1.0, q, b - 1.0, scale=s + 1.0),
+                       onp.all(pull1(1.0) == gb), onp.all(pull2(1.0) == gb2), onp.all(pull1(2.0) == 2.0 * gb)]
+            # ... and re-entrantly: the function being differentiated calls the very operator object differentiating it
+            holder = {}
+
+            def rec(z, depth):
+                if depth == 0:
+                    return anp.sum(z * z * z)
+                return anp.sum(holder["g"](z * 2.0, depth - 1) * z)
+            holder["g"] = grad(rec)
+            # rec(z,1) = sum(3 (2z)^2 z) = 12 sum z^3 ; gradient 36 z^2
+            checks.append(onp.all(holder["g"](a, 1) == 36.0 * a * a))
             # a variadic function: every position, counted from either end
             def vfun(*zs):
                 return float(len(zs)) * sum((i + 2.0) * anp.sum(z * z) for i, z in enumerate(zs))
